@@ -346,6 +346,11 @@ func (d *Decimal) setExponent(c *Context, nd int64, res Condition, xs ...int64) 
 		}
 		sum += x
 	}
+	// The adjusted exponent checked below bounds the sum from above, but a
+	// coefficient of several digits can hide an exponent below MinExponent.
+	if sum < MinExponent {
+		return SystemUnderflow | Underflow
+	}
 	r := int32(sum)
 
 	if nd == unknownNumDigits {
